@@ -186,10 +186,19 @@ def frag_dlerpSpeed(src):
 
 
 def frag_dlerpEps(src):
-    m = re.search(r"distance_squared\(target_value\)\s*<\s*([0-9.eE+-]+)", read("src/input_context/input_modifier/delta_lerp.rs"))
-    if not m:
-        raise ExtractError("DeltaLerp snap epsilon not found")
-    return {"dlerpEps": f32(m.group(1))}
+    text = read("src/input_context/input_modifier/delta_lerp.rs")
+    m = re.search(r"distance_squared\(target_value\)\s*<\s*([0-9.eE+-]+)", text)
+    if m:
+        return {"dlerpEps": f32(m.group(1))}
+    # the comparison was rearranged (a hoisted local, a named constant): the snap distance is the one float literal of the
+    # non-test code of this file that is compared with `<` / `<=` and is neither 0 nor 1
+    body = strip_comments(text.split("#[cfg(test)]")[0])
+    body = body[body.find("fn apply"):] if "fn apply" in body else body
+    lits = {l for l in re.findall(r"(?<![\w.])(\d+\.\d+(?:[eE][+-]?\d+)?|\d+[eE][+-]?\d+)(?:_?f32)?", body)
+            if float(l) not in (0.0, 1.0)}
+    if len(lits) == 1 and re.search(r"<=?", body):
+        return {"dlerpEps": f32(lits.pop())}
+    raise ExtractError("DeltaLerp snap epsilon not found")
 
 
 def frag_sortedInsert(src):
